@@ -250,7 +250,7 @@ fn manual_base(rng: &mut Rng, cfg: &mut SimCfg, n: usize, tick_ms: u64) -> (Net,
         let tcp = rng.chance(1, 5);
         if tcp {
             // a connect during the hold: its SYN is held
-            conns.push(Conn { from: x, to: y, at_ms: rng.range(lo, hi.max(lo)), c2s: vec![(rng.range(lo, horizon), 1)], s2c: if rng.bool() { vec![(rng.range(lo, horizon), 1)] } else { vec![] }, fin_c: if rng.bool() { Some(horizon) } else { None }, fin_s: None, by_ip: rng.bool() });
+            conns.push(Conn { from: x, to: y, at_ms: rng.range(lo, hi.max(lo)), c2s: vec![(rng.range(lo, horizon), 1)], s2c: if rng.bool() { vec![(rng.range(lo, horizon), 1)] } else { vec![] }, fin_c: if rng.bool() { Some(horizon) } else { None }, fin_s: None, by_ip: rng.bool(), drop_c: None });
             left -= 1;
         } else {
             let c = rng.usize(1, left.min(3));
@@ -271,7 +271,7 @@ fn manual_base(rng: &mut Rng, cfg: &mut SimCfg, n: usize, tick_ms: u64) -> (Net,
         script.push((fin, Act::Release(Sel::All, Sel::All)));
     }
     let tick = cfg.tick_us;
-    let net = Net { cfg: cfg.clone(), hosts: n, udp, conns, hacts: vec![], script, steps: fin + (3 * (cfg.max_latency_us.div_ceil(tick) + 2) + 4) as u32, sample_links: true };
+    let net = Net { cfg: cfg.clone(), hosts: n, udp, conns, hacts: vec![], script, steps: fin + (3 * (cfg.max_latency_us.div_ceil(tick) + 2) + 4) as u32, sample_links: true, probes: vec![] };
     (net, Manual { pair: (a, b), mark_step })
 }
 
@@ -328,7 +328,7 @@ fn cycles_base(rng: &mut Rng, cfg: &mut SimCfg, n: usize, tick_ms: u64) -> Net {
             }
             if rng.chance(1, 4) {
                 let at = rng.range(lo, hi);
-                conns.push(Conn { from: a, to: b, at_ms: at, c2s: vec![(at, 1)], s2c: vec![], fin_c: None, fin_s: None, by_ip: false });
+                conns.push(Conn { from: a, to: b, at_ms: at, c2s: vec![(at, 1)], s2c: vec![], fin_c: None, fin_s: None, by_ip: false, drop_c: None });
             }
             let mut seq = Vec::new();
             for _ in 0..rng.usize(1, 3) {
@@ -364,7 +364,7 @@ fn cycles_base(rng: &mut Rng, cfg: &mut SimCfg, n: usize, tick_ms: u64) -> Net {
     script.push((fin, Act::Release(Sel::All, Sel::All)));
     script.sort_by_key(|(s, _)| *s);
     let tick = cfg.tick_us;
-    Net { cfg: cfg.clone(), hosts: n, udp, conns, hacts, script, steps: fin + (3 * (cfg.max_latency_us.div_ceil(tick) + 2) + 4) as u32, sample_links: rng.chance(4, 5) }
+    Net { cfg: cfg.clone(), hosts: n, udp, conns, hacts, script, steps: fin + (3 * (cfg.max_latency_us.div_ceil(tick) + 2) + 4) as u32, sample_links: rng.chance(4, 5), probes: vec![] }
 }
 
 /// Ordered subsets of 0..k (all of them).
@@ -935,7 +935,7 @@ mod tests {
 
     #[test]
     fn model_hold_release_on_a_hand_written_history() {
-        let net = Net { cfg: SimCfg { min_latency_us: 3000, max_latency_us: 3000, tick_us: 1000, ..SimCfg::default() }, hosts: 2, udp: vec![], conns: vec![], hacts: vec![], script: vec![], steps: 1, sample_links: false };
+        let net = Net { cfg: SimCfg { min_latency_us: 3000, max_latency_us: 3000, tick_us: 1000, ..SimCfg::default() }, hosts: 2, udp: vec![], conns: vec![], hacts: vec![], script: vec![], steps: 1, sample_links: false, probes: vec![] };
         let ev = |seq, step, t, host, kind| Ev { seq, step, t, host, kind };
         let m = |s| Msg::Udp { from: 0, to: 1, seq: s };
         let evs = vec![
@@ -966,14 +966,14 @@ mod tests {
     #[test]
     fn repo_scenarios_pass_the_oracle() {
         let cfg = SimCfg { min_latency_us: 2000, max_latency_us: 2000, tick_us: 1000, ..SimCfg::default() };
-        let conn = Conn { from: 1, to: 0, at_ms: 1, c2s: vec![(2, 1)], s2c: vec![(2, 1)], fin_c: None, fin_s: None, by_ip: false };
+        let conn = Conn { from: 1, to: 0, at_ms: 1, c2s: vec![(2, 1)], s2c: vec![(2, 1)], fin_c: None, fin_s: None, by_ip: false, drop_c: None };
         // hold, connect, deliver everything by hand, later release
-        let net = Net { cfg: cfg.clone(), hosts: 2, udp: vec![UdpBurst { from: 0, to: 1, at_ms: 2, count: 2, by_ip: false }], conns: vec![conn.clone()], hacts: vec![], script: vec![(1, Act::Hold(Sel::Name(0), Sel::Name(1))), (5, Act::DeliverAll(0, 1)), (9, Act::Release(Sel::Name(0), Sel::Name(1)))], steps: 30, sample_links: true };
+        let net = Net { cfg: cfg.clone(), hosts: 2, udp: vec![UdpBurst { from: 0, to: 1, at_ms: 2, count: 2, by_ip: false }], conns: vec![conn.clone()], hacts: vec![], script: vec![(1, Act::Hold(Sel::Name(0), Sel::Name(1))), (5, Act::DeliverAll(0, 1)), (9, Act::Release(Sel::Name(0), Sel::Name(1)))], steps: 30, sample_links: true, probes: vec![] };
         let rep = C08::run(&Scenario { net, manual: None, vseed: 0 }, true);
         assert!(rep.violation.is_none(), "{:?}\n{}", rep.violation, rep.log.join("\n"));
         assert!(rep.log.iter().any(|l| l.contains("ConnOk")));
         // hold issued from host code, release from the Sim handle
-        let net = Net { cfg, hosts: 2, udp: vec![], conns: vec![conn], hacts: vec![HostAct { host: 1, at_ms: 1, act: Act::Hold(Sel::Name(0), Sel::Name(1)) }], script: vec![(6, Act::Release(Sel::Name(1), Sel::Name(0)))], steps: 30, sample_links: true };
+        let net = Net { cfg, hosts: 2, udp: vec![], conns: vec![conn], hacts: vec![HostAct { host: 1, at_ms: 1, act: Act::Hold(Sel::Name(0), Sel::Name(1)) }], script: vec![(6, Act::Release(Sel::Name(1), Sel::Name(0)))], steps: 30, sample_links: true, probes: vec![] };
         let rep = C08::run(&Scenario { net, manual: None, vseed: 0 }, true);
         assert!(rep.violation.is_none(), "{:?}\n{}", rep.violation, rep.log.join("\n"));
         assert!(rep.log.iter().any(|l| l.contains("ConnOk")));
@@ -993,6 +993,7 @@ mod tests {
             script: vec![(1, Act::Hold(Sel::Name(1), Sel::Name(0))), (8, Act::Seq(vec![Act::Release(Sel::Name(1), Sel::Name(0)), Act::Hold(Sel::Name(1), Sel::Name(0))])), (15, Act::Release(Sel::Name(0), Sel::Name(1)))],
             steps: 25,
             sample_links: true,
+            probes: vec![],
         };
         let rep = C08::run(&Scenario { net, manual: None, vseed: 0 }, true);
         assert!(rep.violation.is_none(), "{:?}\n{}", rep.violation, rep.log.join("\n"));
